@@ -423,9 +423,57 @@ def dead_subscriber_case():
     return None
 
 
+def takeover_case():
+    """a message to a well-known name goes to the connection that owns it NOW: after a takeover to the new owner only;
+    after that owner released the name, not to it any more"""
+    from txdbus import message
+    net = Net()
+    a, b, c = net.connect(), net.connect(), net.connect()
+    N = 'org.verif.Name'
+    if a.call_bus('RequestName', 'su', [N, 1]).body[0] != 1:                  # ALLOW_REPLACEMENT
+        return 'first RequestName did not make the caller primary owner'
+    if b.call_bus('RequestName', 'su', [N, 2]).body[0] != 1:                  # REPLACE_EXISTING
+        return 'RequestName with REPLACE_EXISTING over a replaceable owner did not take the name'
+    for p in (a, b, c):
+        p.drain()
+    c.send(message.MethodCallMessage('/o', 'M', interface='org.e.I', destination=N, signature='s', body=['after takeover']))
+    got = {p.name: [x.body for x in p.drain() if getattr(x, 'member', None) == 'M'] for p in (a, b, c)}
+    if got[b.name] != [['after takeover']] or got[a.name] or got[c.name]:
+        return 'after %s took %s over from %s a call to the name was delivered as %r' % (b.name, N, a.name, got)
+    b.call_bus('ReleaseName', 's', [N])
+    for p in (a, b, c):
+        p.drain()
+    c.send(message.MethodCallMessage('/o', 'M', interface='org.e.I', destination=N, signature='s', body=['after release']))
+    got = {p.name: [x.body for x in p.drain() if getattr(x, 'member', None) == 'M'] for p in (a, b, c)}
+    # (whether the replaced owner waits in the queue is not stated by the properties: only that a client that released the
+    #  name no longer receives what is addressed to it, and bystanders never do)
+    if got[b.name] or got[c.name]:
+        return 'after %s released %s a call to the name was delivered as %r' % (b.name, N, got)
+    return None
+
+
+def namespace_subscription_case():
+    """broadcasts reach the subscribers whose rule they satisfy: a path_namespace rule matches the namespace path itself,
+    paths below it, and nothing that merely shares the text prefix"""
+    from txdbus import message
+    net = Net()
+    a, b = net.connect(), net.connect()
+    b.call_bus('AddMatch', 's', ["type='signal',path_namespace='/a/b'"])
+    b.drain()
+    want = []
+    for path, hit in (('/a/b', True), ('/a/b/c', True), ('/a/bc', False), ('/a', False)):
+        a.send(message.SignalMessage(path, 'S', 'org.e.I', signature='s', body=[path]))
+        if hit:
+            want.append([path])
+    got = [x.body for x in b.drain() if getattr(x, 'member', None) == 'S']
+    if got != want:
+        return "a subscriber with path_namespace='/a/b' received %r, expected %r" % (got, want)
+    return None
+
+
 def bounded(tier, seed):
     n = 0
-    for case in (order_case, prehello_case, dead_subscriber_case):
+    for case in (order_case, prehello_case, dead_subscriber_case, takeover_case, namespace_subscription_case):
         n += 1
         try:
             f = case()
